@@ -3,7 +3,9 @@
  *   - heap: bump allocator over one private mapping at a FIXED address (so ASLR of the heap is out of
  *     the picture; run the tool under `setarch -R` to fix the rest); seeded start offset, seeded
  *     padding between blocks, every fresh block filled with a seeded byte, every freed block
- *     scribbled with another one; nothing is ever reused (so use-after-free reads see the scribble);
+ *     scribbled with another one; freed blocks go to per-size free lists and are handed out again
+ *     (filled afresh) under a seeded policy, so a use-after-free read sees either the scribble or the
+ *     next owner's data depending on the seed, and memory use stays bounded;
  *   - stack: the constructor dirties 256 KiB below the current frame with a seeded byte, so reads of
  *     uninitialised locals see seed-dependent garbage;
  *   - clock: time() returns SIMHEAP_CLOCK when set.
@@ -20,7 +22,7 @@
 #include <sys/mman.h>
 
 #define ARENA_ADDR ((void *)0x200000000000ULL)
-#define ARENA_SIZE (1ULL << 34)            /* 16 GiB of address space, touched lazily */
+#define ARENA_SIZE (3ULL << 30)            /* 3 GiB of address space, touched lazily */
 #define HDR 16
 
 static unsigned char * arena;
@@ -28,6 +30,7 @@ static size_t arena_pos;
 static uint64_t rng_state = 0x9E3779B97F4A7C15ULL;
 static unsigned char fill_new = 0xA5, fill_free = 0xDD;
 static unsigned pad_mask = 0;
+static unsigned reuse_mask = 1;          /* reuse when (rand & reuse_mask) == 0 : always / half / quarter of the time */
 static int inited;
 static long sim_clock = -1;
 
@@ -71,14 +74,73 @@ static void init( void ) {
     fill_new = ( unsigned char )( next_rand() & 0xFF );
     fill_free = ( unsigned char )( next_rand() & 0xFF );
     pad_mask = ( unsigned )( ( 1u << ( next_rand() % 7 ) ) - 1 ); /* 0..63 units of 16 bytes of padding */
+    reuse_mask = ( unsigned )( ( 1u << ( next_rand() % 3 ) ) - 1 ); /* reuse always / half / a quarter of the time */
     const char * c = env_get( "SIMHEAP_CLOCK" );
     if( c ) {
         sim_clock = ( long )parse_u64( c );
     }
 }
 
+/* ---- seeded reuse of freed blocks ---------------------------------------------------------- */
+#define NCLASS 4097                      /* blocks up to 64 KiB: class = rounded size / 16 */
+struct fblk { struct fblk * next; };
+static struct fblk * freelist[NCLASS];
+struct lblk { struct lblk * next; size_t size; };
+static struct lblk * large_free;
+
+static void * take_free( size_t n, size_t align ) {
+    if( align > 16 ) {
+        return 0;
+    }
+    size_t r = ( n + 15 ) & ~( size_t )15;
+    if( r / 16 < NCLASS ) {
+        struct fblk * b = freelist[r / 16];
+        if( b && ( ( next_rand() & reuse_mask ) == 0 ) ) {
+            freelist[r / 16] = b->next;
+            return b;
+        }
+        return 0;
+    }
+    struct lblk ** pp = &large_free;
+    while( *pp ) {
+        if( ( *pp )->size >= r && ( *pp )->size <= r + r / 4 ) {
+            struct lblk * b = *pp;
+            *pp = b->next;
+            return b;
+        }
+        pp = &( *pp )->next;
+    }
+    return 0;
+}
+
+static void give_free( unsigned char * q, size_t cap ) {
+    if( cap < 16 ) {
+        return;
+    }
+    if( cap / 16 < NCLASS ) {
+        struct fblk * b = ( struct fblk * )q;
+        b->next = freelist[cap / 16];
+        freelist[cap / 16] = b;
+    } else {
+        struct lblk * b = ( struct lblk * )q;
+        b->next = large_free;
+        b->size = cap;
+        large_free = b;
+    }
+}
+
 static void * bump( size_t n, size_t align ) {
     init();
+    {
+        unsigned char * r = take_free( n, align );
+        if( r ) {
+            size_t cap = ( ( size_t * )( r - HDR ) )[1];
+            ( ( size_t * )( r - HDR ) )[0] = n;
+            ( void )cap;
+            memset( r, fill_new, n );
+            return r;
+        }
+    }
     if( align < 16 ) {
         align = 16;
     }
@@ -90,8 +152,10 @@ static void * bump( size_t n, size_t align ) {
         return 0;
     }
     unsigned char * q = arena + p;
-    *( size_t * )( q - HDR ) = n;
-    arena_pos = p + n;
+    size_t cap = ( n + 15 ) & ~( size_t )15;
+    ( ( size_t * )( q - HDR ) )[0] = n;       /* requested size */
+    ( ( size_t * )( q - HDR ) )[1] = cap;     /* capacity of the block */
+    arena_pos = p + cap;
     memset( q, fill_new, n );
     return q;
 }
@@ -108,8 +172,9 @@ void free( void * p ) {
     if( q < arena || q >= arena + ARENA_SIZE ) {
         return;
     }
-    size_t n = *( size_t * )( q - HDR );
-    memset( q, fill_free, n );
+    size_t cap = ( ( size_t * )( q - HDR ) )[1];
+    memset( q, fill_free, cap );             /* scribble first: readers of the stale pointer see this ... */
+    give_free( q, cap );                      /* ... until the block is handed out again (free-list link overwrites 8/16 bytes) */
 }
 
 void * calloc( size_t a, size_t b ) {
